@@ -46,6 +46,9 @@ class PureEval:
 			return False
 		except Unsupported as e:
 			raise Unsupported(f'in clause {s!r}: {e}')
+		except (AttributeError, TypeError, KeyError, IndexError, z3.Z3Exception) as e:
+			# the clause's vocabulary does not apply to the values the (changed) code produced here: undecided, not a crash
+			raise Unsupported(f'in clause {s!r}: cannot be evaluated on these values ({type(e).__name__}: {e})')
 
 	def get(self, name):
 		"""Value of a name (dereferenced)."""
